@@ -93,6 +93,7 @@ def run(F, R):
     # F12: ... and at the addresses it was told: each transport's queue_set writes every area address, low and high word, into
     # that area's own registers (shared with C10.M2 / C11.W3)
     transport_registration_rule(F, R, 'F12')
+    transport_registration_rule(F, R, 'F12', op='set_guest_page_size')      # a legacy device multiplies the registered page frame number by it
     from .C03 import e3_capacity
     for add_id in pubs:
         e3_capacity(F, R, M, add_id, rule='F8', rule1='F8')
